@@ -9,6 +9,7 @@ and direction; x reverse x batching x objects/mappings.
 
 import datetime
 import decimal
+import fractions
 import itertools
 
 from ..core import HarnessFault
@@ -70,6 +71,11 @@ DOMAINS = {
               for b in (D(2020, 1, 1), D(2021, 6, 1), None)],
     'pairbool': [(a, b) for a in (False, True, None)
                  for b in (b'a', b'b', None)],
+    # numbers of different types in one column (they compare by value)
+    'nummix': [1, decimal.Decimal('2.5'), 0.5, fractions.Fraction(3, 2),
+               decimal.Decimal('0.75'), 3, None, 'MISSING'],
+    # two keys, the first one a method (which may return None)
+    'paircall': [(('call', a), b) for a in (1, 2, None) for b in (1, 2, None)],
 }
 
 SPECS = {
@@ -92,6 +98,8 @@ SPECS = {
     'plain-item': ['', 'sequence-item'],
     'pairx': ['k,k2', 'k/cmp/desc,k2/cmp/asc', 'k2,k'],
     'pairbool': ['k,k2', 'k/cmp/asc,k2/cmp/desc', 'k2/cmp/desc,k'],
+    'nummix': ['k', 'k/cmp', 'k/cmp/desc', 'EXPR:k/cmp'],
+    'paircall': ['k,k2', 'k/cmp,k2/cmp/desc', 'k2,k'],
 }
 
 ABSENT = object()
@@ -118,10 +126,14 @@ def build(ktype, syms, mapping):
             keys.append((v,))
             continue
         attrs = {'id': i}
-        if ktype in ('pair', 'pairx', 'pairbool'):
+        if ktype in ('pair', 'pairx', 'pairbool', 'paircall'):
             comp = []
             for name, x in zip(('k', 'k2'), v):
-                attrs[name] = x
+                if isinstance(x, tuple) and x[0] == 'call':
+                    attrs[name] = (lambda r=x[1]: r)
+                    x = x[1]
+                else:
+                    attrs[name] = x
                 comp.append(ABSENT if x is None else x)
             keys.append(tuple(comp))
         else:
